@@ -15,7 +15,8 @@ from ..ref import url as RU
 ID = "C18"
 LEVEL = "exploration"
 RULE = ("cases = URLs from scheme x separator x userinfo x host x port x path x query (plus every port 1..65535 for one host, thorough) "
-        "and address lists (every list of length 1..4 over 4 outcome kinds) x user socket option x timeout; non-trivial = distinct case")
+        "and address lists (every list of length 1..4 over 4 outcome kinds) x user socket option x timeout; history: every ordered pair of 6 option/timeout settings x 2 APIs x 2 address lists "
+        "(connection i, connection j, connection i again: the sockets of i get the same settings both times); non-trivial = distinct case")
 ASSUMPTIONS = ["upper-case schemes, port 0 and an empty port are don't-care", "errno values other than refused/unreachable may abort or continue (don't-care)",
                "TLS is simulated for this check (the wrap request is recorded); real TLS is C11's subject"]
 
@@ -31,7 +32,7 @@ OTHERS = [errno.ETIMEDOUT, errno.EHOSTUNREACH, errno.EPERM]
 
 
 def bounds(tier):
-    return "URL grid of 25920 strings%s; 340 address lists x 2 option sets x 2 timeouts x 3 'other' errno values" % (
+    return "URL grid of 25920 strings%s; 340 address lists x 2 option sets x 2 timeouts x 3 'other' errno values; 36 ordered pairs of settings for successive connections" % (
         " + all ports 1..65535" if tier == "thorough" else " + ports 1..65535 step 257")
 
 
@@ -56,6 +57,7 @@ def tasks(tier, seed):
         ts.append({"part": "ports", "lo": 1, "hi": 65536, "step": 257, "name": "ports"})
     for k in (1, 2, 3, 4):
         ts.append({"part": "addrs", "k": k, "name": "addrs/%d" % k})
+    ts.append({"part": "history", "name": "history"})
     return ts
 
 
@@ -231,6 +233,54 @@ def addr_case(outs, user_opt, timeout, other_errno, tsrc="settimeout"):
     return None
 
 
+def _settings():
+    import socket as S
+    A, B = (S.SOL_SOCKET, S.SO_RCVBUF, 12345), (S.SOL_SOCKET, S.SO_SNDBUF, 23456)
+    return [("none", None, None), ("empty", [], None), ("rcvbuf", [A], None), ("sndbuf-tuple", (B,), 7), ("both", [A, B], 3), ("rcvbuf-t5", [A], 5)]
+
+
+def one_connection(setting, api, kinds):
+    """One connection with its own socket options / timeout. Returns [(address, timeout at connect time, frozenset(options at connect time))]."""
+    import socket as S
+    name, sockopt, timeout = setting
+    net = simnet.Net()
+    ips = ["192.0.2.%d" % (i + 1) for i in range(len(kinds))]
+    net.resolver = lambda host, port: [(S.AF_INET, ip) for ip in ips]
+    net.dial = lambda n_, s, a: kinds[ips.index(a[0])]
+    net.peer_for = lambda n_, s, a: Peer()
+    simnet.install(net)
+    try:
+        kw = {} if sockopt is None else {"sockopt": sockopt}
+        if api == "create_connection":
+            if timeout is not None:
+                kw["timeout"] = timeout
+            ws = lib.websocket.create_connection("ws://multi.example/", **kw)
+        else:
+            ws = lib.websocket.WebSocket(**kw)
+            ws.connect("ws://multi.example/", **({} if timeout is None else {"timeout": timeout}))
+        ws.close()
+    finally:
+        simnet.uninstall()
+    return [(s.address[0], s.presettings["timeout"], frozenset(map(tuple, s.presettings["opts"]))) for s in net.socks if s.address is not None]
+
+
+def history_case(i, j, api, kinds):
+    """Differential oracle: what the sockets of a connection with setting i get (options, timeout) must not depend on whether a connection
+    with setting j was made before it in the same process."""
+    lib.reset_globals()
+    env.install_urandom("counter")
+    S_ = _settings()
+    before = one_connection(S_[i], api, kinds)
+    one_connection(S_[j], api, kinds)
+    after = one_connection(S_[i], api, kinds)
+    if before != after:
+        d = [(a, b) for a, b in zip(before, after) if a != b][:1]
+        return ({"kind": "settings-leak-between-connections", "what": "timeout" if d and d[0][0][1] != d[0][1][1] else "sockopt"},
+                "connection with settings %r via %s (addresses %r): its sockets got %r at connect time, but after another connection with settings %r had been made "
+                "the same call gave %r" % (S_[i][0], api, kinds, d[0][0][1:] if d else before, S_[j][0], d[0][1][1:] if d else after))
+    return None
+
+
 def run_task(desc):
     res = runner.new_result()
     n = 0
@@ -260,6 +310,15 @@ def run_task(desc):
                 n += 1
                 rec(guarded(url_case, u, p % 64 == 1), {"case": "url", "url": u})
         res["samples"].append({"ports": [desc["lo"], desc["hi"] - 1, desc["step"]]})
+    elif desc["part"] == "history":
+        ns = len(_settings())
+        for i in range(ns):
+            for j in range(ns):
+                for api in ("connect", "create_connection"):
+                    for kinds in (["accept"], [errno.ECONNREFUSED, "accept"]):
+                        n += 1
+                        rec(guarded(history_case, i, j, api, kinds), {"case": "history", "args": [i, j, api, kinds]})
+        res["samples"].append({"history_settings": [x[0] for x in _settings()]})
     else:
         for outs in itertools.product(range(len(OUTCOMES)), repeat=desc["k"]):
             for user_opt in (False, True):
@@ -276,6 +335,8 @@ def run_task(desc):
 def replay(rep):
     if rep["case"] == "url":
         f = url_case(rep["url"])
+    elif rep["case"] == "history":
+        f = history_case(*rep["args"])
     else:
         a = rep["args"]
         f = addr_case(tuple(a[0]), a[1], a[2], a[3], a[4] if len(a) > 4 else "settimeout")
